@@ -68,12 +68,18 @@ type LVal struct {
 type State struct {
 	heaps map[string]string
 	defers []*ssa.Defer
+	// mtop: for each heap, the allocation high-water mark at the time of its last modification
+	// (absent: unmodified since function entry). References read from a heap are <= that mark.
+	mtop map[string]string
 }
 
 func (s *State) clone() *State {
-	n := &State{heaps: map[string]string{}}
+	n := &State{heaps: map[string]string{}, mtop: map[string]string{}}
 	for k, v := range s.heaps {
 		n.heaps[k] = v
+	}
+	for k, v := range s.mtop {
+		n.mtop[k] = v
 	}
 	n.defers = append([]*ssa.Defer(nil), s.defers...)
 	return n
@@ -229,12 +235,72 @@ func (t *fnTrans) heapSet(st *State, name, sort, term string) {
 	n := t.freshConst(name+"@", sort)
 	t.assumeRaw(eq(n, term))
 	st.heaps[name] = n
+	t.markMod(st, name)
+}
+
+func (t *fnTrans) markMod(st *State, name string) {
+	if name == "$top" {
+		return
+	}
+	if st.mtop == nil {
+		st.mtop = map[string]string{}
+	}
+	st.mtop[name] = t.top(st)
+}
+
+// readTop: upper bound for references read from the given heaps in state st.
+func (t *fnTrans) readTop(st *State, names []string) string {
+	res := ""
+	for i, n := range names {
+		v, ok := st.mtop[n]
+		if !ok {
+			v = t.top(t.entry)
+		}
+		if i == 0 {
+			res = v
+		} else if v != res {
+			return t.top(st)
+		}
+	}
+	if res == "" {
+		return t.top(st)
+	}
+	return res
+}
+
+// lvalHeaps lists the heaps a load through lv reads.
+func lvalHeaps(lv *LVal) []string {
+	var out []string
+	switch lv.Kind {
+	case lvField:
+		for _, c := range flatten(lv.T) {
+			out = append(out, fieldHeap(lv.S, lv.Field, c.Suffix))
+		}
+	case lvElem:
+		for _, c := range flatten(lv.T) {
+			out = append(out, elemHeap(lv.ElemT, lv.Path+c.Suffix))
+		}
+	case lvCell:
+		for _, c := range flatten(lv.T) {
+			out = append(out, cellHeap(lv.T, c.Suffix))
+		}
+	}
+	return out
+}
+
+func (t *fnTrans) valueFactsTop(top string, v Val) string {
+	fs := []string{rangeFact(v.T, v.C)}
+	for _, i := range refComps(v.T) {
+		fs = append(fs, le(v.C[i], top))
+	}
+	return and(fs...)
 }
 
 func (t *fnTrans) heapHavoc(st *State, name, sort string) string {
 	n := t.freshConst(name+"@", sort)
 	st.heaps[name] = n
 	t.rangeAxiom(name, n, sort)
+	t.markMod(st, name)
 	return n
 }
 
@@ -774,7 +840,7 @@ func translateFunc(eng *Engine, fn *ssa.Function, ct *Contract) (t *fnTrans) {
 	}
 	t.findLoops()
 	t.assignOrdinals()
-	t.entry = &State{heaps: map[string]string{}}
+	t.entry = &State{heaps: map[string]string{}, mtop: map[string]string{}}
 	t.st = t.entry.clone()
 	t.top(t.st)
 
@@ -800,7 +866,7 @@ func translateFunc(eng *Engine, fn *ssa.Function, ct *Contract) (t *fnTrans) {
 	// package axioms (assumed facts about package-level state; listed in trusted_base)
 	for _, name := range eng.cs.Order {
 		ax := eng.cs.ByTarget[name]
-		if ax.Kind != "axiom" || ax.DefExpr == nil {
+		if ax.Kind != "axiom" || ax.DefExpr == nil || ax.Pkg != fn.Pkg.Pkg.Path() {
 			continue
 		}
 		axenv := t.specEnv(t.st, t.st)
@@ -885,7 +951,7 @@ func (t *fnTrans) block(b *ssa.BasicBlock) {
 			return
 		}
 		// merge states
-		st := &State{heaps: map[string]string{}}
+		st := &State{heaps: map[string]string{}, mtop: map[string]string{}}
 		names := map[string]bool{}
 		for _, in := range incs {
 			for k := range in.st.heaps {
@@ -924,8 +990,48 @@ func (t *fnTrans) block(b *ssa.BasicBlock) {
 			}
 			st.heaps[k] = n
 		}
+		// modification marks: keep when all predecessors agree, else the (merged) current top
+		st.mtop = map[string]string{}
+		mk := map[string]bool{}
+		for _, in := range incs {
+			for k := range in.st.mtop {
+				mk[k] = true
+			}
+		}
+		for k := range mk {
+			first, same := "", true
+			for i, in := range incs {
+				v, ok := in.st.mtop[k]
+				if !ok {
+					v = "@entry"
+				}
+				if i == 0 {
+					first = v
+				} else if v != first {
+					same = false
+				}
+			}
+			if same && first != "@entry" {
+				st.mtop[k] = first
+			} else if !same {
+				st.mtop[k] = "@merge"
+			}
+		}
 		// defers: take from first (must agree)
 		st.defers = append([]*ssa.Defer(nil), incs[0].st.defers...)
+		if tp, ok := st.heaps["$top"]; ok {
+			for k, v := range st.mtop {
+				if v == "@merge" {
+					st.mtop[k] = tp
+				}
+			}
+		} else {
+			for k, v := range st.mtop {
+				if v == "@merge" {
+					delete(st.mtop, k)
+				}
+			}
+		}
 		for _, in := range incs[1:] {
 			if len(in.st.defers) != len(st.defers) {
 				t.errorf("defer stacks differ at block %d", b.Index)
